@@ -251,25 +251,20 @@ def check_option_leaks(idx, run):
     next parallelising transformation off."""
     import ast
     from sa.index import loc
-    from rules.common_parallel import caller_option_stores
-    count = 0
-    for cls in idx.all_subclasses("psyclone.psyGen.Transformation"):
-        for meth in ("validate", "apply"):
-            func = cls.methods.get(meth)
-            if func is None or "options" not in [
-                    a.arg for a in func.args.args + func.args.kwonlyargs]:
-                continue
-            count += 1
-            stores = caller_option_stores(func)
-            run.check("C09.R8", not stores, f"{cls.name}.{meth}",
-                      "the caller's options dictionary is not written",
-                      f"{cls.name}.{meth} stores into the dictionary the "
-                      f"caller passed as options ("
-                      f"{ast.unparse(stores[0])[:60] if stores else ''}): "
-                      f"the entry is still there when the script passes the "
-                      f"same dictionary to the next transformation",
-                      loc(cls.module, stores[0] if stores else func))
-    run.floor("transformations taking options", count, 110)
+    from rules.common_parallel import option_leaks
+    leaks, returning = option_leaks(idx)
+    count = len(leaks)
+    run.extra["methods_returning_the_callers_options"] = sorted(returning)
+    for cls, func, stores in leaks:
+        run.check("C09.R8", not stores, f"{cls.name}.{func.name}",
+                  "the caller's options dictionary is not written",
+                  f"{cls.name}.{func.name} writes into the dictionary the "
+                  f"caller passed as options ("
+                  f"{ast.unparse(stores[0])[:60] if stores else ''}): "
+                  f"the entry is still there when the script passes the "
+                  f"same dictionary to the next transformation",
+                  loc(cls.module, stores[0] if stores else func))
+    run.floor("transformation methods taking options", count, 120)
 
 
 def check(idx, run):
